@@ -13,7 +13,7 @@ OWNERS = {
     "C01": _ROOTS,
     "C11": _ROOTS,
     "C08": {"ProofFolds", "ProofUnderReadFault"},
-    "C14": {"StopWhileHalted", "GuardWhileHalted", "UnhaltOnlyByReorg"},
+    "C14": {"StopWhileHalted", "GuardWhileHalted", "UnhaltOnlyByReorg", "HaltClearedByEffectiveReorg"},
     "C04": None,   # None = every predicate (state after a reorg must equal the never-seen state in every respect)
     "C07": None,
 }
